@@ -85,8 +85,8 @@ PROPS = {
     "C07": dict(
         harness="h_expm", sources=["expm/main.cpp"], level="exploration",
         variants=dict(quick=[V("asan", 8, 0.4), V("opt", 8)], thorough=[V("asan", 8, 0.3), V("opt", 12), V("optavx", 4, 0.3)]),
-        rule="n cycles 2..6, family cycles over 11 (anti-Hermitian, Hermitian, normal, dense, upper triangular, nilpotent, rank one, block diagonal, diagonal+small, diagonal, real "
-             "rotation), 1-norm from a mixture: straddling every theta threshold (0.015, 0.254, 0.95, 2.1, 4.25*2^s), uniform in the degree 7/9 band, log-uniform 1e-8..limit "
+        rule="n cycles 2..6, family cycles over 15 (anti-Hermitian, Hermitian, normal, dense, upper/lower triangular, strictly upper/lower, rank one, block diagonal, diagonal+small, "
+             "diagonal, real rotation, diagonal plus one off-diagonal entry anywhere, bidiagonal), 1-norm from a mixture: straddling every theta threshold (0.015, 0.254, 0.95, 2.1, 4.25*2^s), uniform in the degree 7/9 band, log-uniform 1e-8..limit "
              "(1e3 normal families, 30 Hermitian, 50 others); each judged call preceded by 0-5 exponentials of other sizes, half re-evaluated after a different prefix; reference: "
              "long double scaling+Taylor; accepted iff |err|_1 <= 256*eps*(1+s)(1+|A|_1+cond_exp)*|exp|_1 with cond_exp from Frechet derivatives (power method x n; exact on a quarter "
              "of thorough cases) and s the squarings reported by the hook; second part: UTransform(V,i*s) value, norm preservation, inversion in d=2..6.",
